@@ -6,3 +6,7 @@ import Verif.Generated.PostActionSrc
 import Verif.Bridge.Token
 import Verif.Props.C20
 import Verif.Drv.Tok
+import Verif.Model.Transient
+import Verif.Spec.C18
+import Verif.Props.C18
+import Verif.Drv.Transient
